@@ -1191,6 +1191,46 @@ fn run_body(c: &RtCase, lines: &mut Vec<String>, flags: &mut RtFlags) {
                 finish_call(id, pre, &mut run, lines, &mut fl);
             }
         }
+        Body::Z(a, b, evs) => {
+            // Each stream is created at its first event (so one may be created while FnRefs of the
+            // other, already exhausted one are still alive).
+            let mut ra: Option<StreamRun> = None;
+            let mut rb: Option<StreamRun> = None;
+            for (is_b, ev) in evs {
+                let (slot, cfg, prefix) = if *is_b {
+                    (&mut rb, b, "B.")
+                } else {
+                    (&mut ra, a, "A.")
+                };
+                let run = slot.get_or_insert_with(|| StreamRun::new(&g, cfg));
+                if run.stopped() {
+                    continue;
+                }
+                let body = run.apply(ev);
+                lines.push(format!("OBS {id} {prefix}{body}"));
+            }
+            for (slot, cfg, prefix) in [(ra, a, "A."), (rb, b, "B.")] {
+                let mut run = slot.unwrap_or_else(|| StreamRun::new(&g, cfg));
+                flags.panic |= run.stopped();
+                let (z, t) = run.finish();
+                flags.panic |= z == "Z X";
+                lines.push(format!("OBS {id} {prefix}{z}"));
+                lines.push(format!("OBS {id} {prefix}{t}"));
+            }
+            // Oracle of C20: each stream alone on its own freshly built graph (`fA.` / `fB.`).
+            for (which, cfg, pre) in [(false, a, "fA."), (true, b, "fB.")] {
+                let Some(fresh) = build_graph(&c.ops) else {
+                    continue;
+                };
+                let own: Vec<SEv> = evs
+                    .iter()
+                    .filter(|(is_b, _)| *is_b == which)
+                    .map(|(_, e)| e.clone())
+                    .collect();
+                let mut fl = RtFlags::default();
+                run_stream_events(id, pre, &fresh, cfg, &own, lines, &mut fl);
+            }
+        }
     }
 }
 
